@@ -816,9 +816,15 @@ fn explore_pair(base: &Case, rng: &mut Rng, st: &mut Stats, wm_variants: usize) 
     st.count("pairs_of_sequences");
     if pair_is_nontrivial(base) {
         st.nontrivial(hash_of(&(base.w, base.cond, &base.left, &base.right)));
-        st.sample(|| base.to_json());
     }
     let ms = merges(base.left.len(), base.right.len());
+    if pair_is_nontrivial(base) {
+        st.sample(|| {
+            let mut j = base.to_json();
+            j["steps"] = json!(format!("all {} merges of the two arrival orders, each without and with watermark updates", ms.len()));
+            j
+        });
+    }
     st.max("max::merges_of_one_pair", ms.len() as u64);
     let ts_hi = base.left.iter().chain(base.right.iter()).map(|e| e.ts).max().unwrap_or(0) as i64;
     let mut first: Option<(Vec<Step>, BTreeSet<(usize, usize)>)> = None;
@@ -945,6 +951,10 @@ impl Check for C14 {
                     if li % nthreads != shard {
                         continue;
                     }
+                    if cli.expired() {
+                        st.count("exhaustive_part_stopped_by_time_budget");
+                        break;
+                    }
                     for right in seqs.iter() {
                         let base = Case {
                             w: *w,
@@ -978,6 +988,10 @@ impl Check for C14 {
                     }
                 }
             });
+            if st.get("exhaustive_part_stopped_by_time_budget") > 0 {
+                st.notes.push(format!("exhaustive sub-space (condition {:?}, window {}) was cut short by the soft time budget and is NOT claimed as exhaustive", cond, w));
+                continue;
+            }
             st.exhaustive.push(format!(
                 "condition {:?}, window {}: all pairs of sequences of <=2+2 events over {} event kinds (keys {:?} x ts 0..={} x v) = {} pairs x all merges x (no watermark update + one update at every gap with every value 0..={})",
                 cond,
